@@ -18,6 +18,12 @@ type Case struct {
 	Mode  string         // oracle flags, comma separated: value, alias, nomutate
 	Funcs map[string]any // custom functions referenced by the plan
 	Conv  any            // converter instance (for custom functions taking the converter)
+	// SrcIdx is the parameter index of the source; CtxIdx lists the parameter indices of the context arguments in
+	// the order of the method's context list (Plan.Args refer to positions in this list).
+	SrcIdx int
+	CtxIdx []int
+	// Update: parameter index of the update target (-1/0 = none; only used when Mode contains "update")
+	TgtIdx int
 }
 
 var cases []Case
@@ -124,15 +130,31 @@ func runCase(c Case, k int) CaseResult {
 	}
 	fn := reflect.ValueOf(c.Fn)
 	ft := fn.Type()
-	if ft.NumIn() != 1 || ft.NumOut() < 1 {
+	modes := map[string]bool{}
+	for _, m := range strings.Split(c.Mode, ",") {
+		modes[m] = true
+	}
+	if modes["update"] {
+		return runUpdateCase(c, in, &ps, fn, k, modes)
+	}
+	if ft.NumIn() != 1+len(c.CtxIdx) || ft.NumOut() < 1 || c.SrcIdx >= ft.NumIn() {
 		res.Fails = append(res.Fails, Fail{Kind: "harness", Detail: "unsupported signature " + ft.String()})
 		res.NFail++
 		return res
 	}
-	st, dt := ft.In(0), ft.Out(0)
-	modes := map[string]bool{}
-	for _, m := range strings.Split(c.Mode, ",") {
-		modes[m] = true
+	st, dt := ft.In(c.SrcIdx), ft.Out(0)
+	ctxVals := make([]reflect.Value, len(c.CtxIdx))
+	for i, pi := range c.CtxIdx {
+		ctxVals[i] = ctxValue(ft.In(pi), i)
+	}
+	in.CtxArgs = ctxVals
+	mkArgs := func(v reflect.Value) []reflect.Value {
+		args := make([]reflect.Value, ft.NumIn())
+		args[c.SrcIdx] = v
+		for i, pi := range c.CtxIdx {
+			args[pi] = ctxVals[i]
+		}
+		return args
 	}
 	vals := Enum(st, k)
 	vals = append(vals, ShareVariants(st, vals[0])...)
@@ -147,7 +169,7 @@ func runCase(c Case, k int) CaseResult {
 		shown := Show(v)
 		before := Clone(v)
 		modelIn := Clone(v)
-		g := safeCall(fn, []reflect.Value{v})
+		g := safeCall(fn, mkArgs(v))
 		res.Calls++
 		m := in.safeEval(ps.Root, modelIn, dt)
 		if _, isModelPanic := m.pval.(*ModelPanic); m.panicked && !isModelPanic {
@@ -172,6 +194,9 @@ func runCase(c Case, k int) CaseResult {
 		}
 		if g.err != nil {
 			res.Seen["error"]++
+			if d := in.checkErr(&ps, modelIn, g.err, modes); d != "" {
+				fail(Fail{Kind: "error-path", Value: shown, Got: fmt.Sprint(g.err), Detail: d})
+			}
 			continue
 		}
 		res.Seen["ok"]++
@@ -205,4 +230,16 @@ func runCase(c Case, k int) CaseResult {
 		}
 	}
 	return res
+}
+
+// ctxValue is the fixed, recognisable value passed for the i-th context argument.
+func ctxValue(t reflect.Type, i int) reflect.Value {
+	switch t.Kind() {
+	case reflect.Int, reflect.Int8, reflect.Int16, reflect.Int32, reflect.Int64:
+		return reflect.ValueOf(3 + i).Convert(t)
+	case reflect.String:
+		return reflect.ValueOf(strings.Repeat("c", 2+i)).Convert(t)
+	}
+	g := &valueGen{}
+	return g.def(t, 0)
 }
